@@ -807,7 +807,7 @@ func firstDiff(a, b []any) string {
 
 // traceCfg: configuration of TraceTLSyntax for one run.
 func traceCfg(names []string, checkPrint, checkCanon, documented bool) string {
-	return "CONSTANTS\n  LowerNames = " + setLit(names) + "\n  CheckPrint = " + boolTLA(checkPrint) + "\n  CheckCanon = " + boolTLA(checkCanon) +
+	return "CONSTANTS\n  LongNamesLower = FALSE\n  LowerNames = " + setLit(names) + "\n  CheckPrint = " + boolTLA(checkPrint) + "\n  CheckCanon = " + boolTLA(checkCanon) +
 		"\n  Documented = " + boolTLA(documented) + "\nINIT Init\nNEXT Next\nINVARIANT EventOK\nCHECK_DEADLOCK FALSE\n"
 }
 
